@@ -219,7 +219,7 @@ def mk(prop, gens, nq, nt, proj, oracle, theorems, **kw):
 # oracle is valid on (the property must hold there on the unchanged tree), so that a change whose trigger lives in
 # another corner (after an abort, under a failing checker, in a bottom-up build, ...) is still seen by this property.
 S = dict(
-    td=GB.case_td, tdx=lambda r: (GB.case_td(r, exact=True), dict(exact=True)), bu=GB.case_bu, bud=GB.case_bu_dense, buc=GB.case_bu_chain, tdr=GB.case_td_relay, bur=GB.case_bu_relay,
+    td=GB.case_td, tdx=lambda r: (GB.case_td(r, exact=True), dict(exact=True)), bu=GB.case_bu, bud=GB.case_bu_dense, buc=GB.case_bu_chain, buw=GB.case_bu_wide, tdr=GB.case_td_relay, bur=GB.case_bu_relay,
     pan=GB.case_panic, pano=GB.case_panic_only, panr=GB.case_panic_recover, panrtd=lambda r: GB.case_panic_recover(r, bu_prob=0.0), fail=GB.case_failing_checker, buf=GB.case_bu_fail, hid=GB.case_hidden, hidp=GB.case_hidden_polluted,
     ovl=GB.case_overlap, cyc=GB.case_cycle, rol=GB.case_roles, ero=GB.case_erosion, k1=GB.case_partial_td_then_bu,
     k2=GB.case_multichecker,
@@ -231,7 +231,7 @@ def st(**w):
     return [(k, S[k], v) for k, v in w.items()]
 
 
-WELLFORMED_STREAMS = ("td", "tdx", "bu", "bud", "buc", "xs", "tdr", "bur")
+WELLFORMED_STREAMS = ("td", "tdx", "bu", "bud", "buc", "xs", "tdr", "bur", "buw")
 
 
 def c01_oracle(c, io):
@@ -254,10 +254,10 @@ PROPS.update({
               lambda c, io: OB.c02(c, io, exact=c.meta.get("exact", False),
                                     idem_sessions=c.meta.get("stream") in WELLFORMED_STREAMS + ("pano", "panr")), [],
               proj_name="C02: execute_start and check events with verdicts per session", exhaustive=True),
-    "C03": mk("C03", st(bu=4, bud=3, buc=3, buf=2, k1=1, bur=1), 3000, 30000,
+    "C03": mk("C03", st(bu=4, bud=3, buc=3, buf=2, k1=1, bur=1, buw=1), 3000, 30000,
               proj_lines(("op ", "ev execute_", "ev schedule_task", "out ", "abort ", "done", "fs ", "cl ", "known ", "bad-op")), OB.c03, [],
               proj_name="C03: executions, scheduling, outputs, contents", known_match=known_if_model_agrees("K1", OB.c03, pat_partial_topdown_before_bu), exhaustive=True),
-    "C04": mk("C04", st(bu=3, bud=3, buc=2, buf=1, pan=1, panr=1, rol=1, ero=1, hid=1, ovl=1, bur=1), 3000, 30000,
+    "C04": mk("C04", st(bu=3, bud=3, buc=2, buf=1, pan=1, panr=1, rol=1, ero=1, hid=1, ovl=1, bur=1, buw=3), 3000, 30000,
               proj_lines(("op ", "ev execute_", "ev schedule_", "ev check_task_re", "out ", "abort ", "done", "bad-op")), OB.c04, [],
               proj_name="C04: order of execute_start/end, schedule and scheduling-check events", known_match=known_if_model_agrees("K7", OB.c04, pat_after_abort), exhaustive=True),
     "C05": mk("C05", st(hid=4, hidp=1, ero=2, td=1, bu=1, bud=1, pan=1, panr=1, ovl=1, rol=1, tdr=1, bur=1), 3000, 30000,
@@ -279,10 +279,10 @@ PROPS.update({
     "C09": mk("C09", st(td=3, bu=2, buc=1, fail=2, bud=1, buf=1, pan=1, panr=1, hid=1), 3000, 30000,
               proj_lines(("op ", "ev read_end", "ev write_end", "ev require_end", "ev check_", "abort ", "bad-op")), OB.c09, [],
               proj_name="C09: stamps in *_end events and verdicts of every check event", exhaustive=True),
-    "C16": mk("C16", st(td=2, bu=2, bud=2, buc=1, hid=1, hidp=1, fail=1, buf=1, pan=1, panr=1, ovl=1, cyc=1, rol=1, ero=1, k1=1, k2=1, tdr=1, bur=1), 3000, 30000,
+    "C16": mk("C16", st(td=2, bu=2, bud=2, buc=1, hid=1, hidp=1, fail=1, buf=1, pan=1, panr=1, ovl=1, cyc=1, rol=1, ero=1, k1=1, k2=1, tdr=1, bur=1, buw=1), 3000, 30000,
               proj_lines(ALL_BUILD), lambda c, io: [], [], proj_name="C16: complete canonical event stream and outputs",
               replays=dict(quick=2, thorough=7)),
-    "C17": mk("C17", st(td=2, bu=2, buc=1, pan=2, panr=1, fail=2, bud=1, buf=1, hid=1, ovl=1, cyc=1, rol=1), 3000, 30000,
+    "C17": mk("C17", st(td=2, bu=2, buc=1, pan=2, panr=1, fail=2, bud=1, buf=1, hid=1, ovl=1, cyc=1, rol=1, buw=1), 3000, 30000,
               proj_lines(("op ", "ev ", "tl ", "et ", "composite", "out ", "abort ", "done", "bad-op")), OB.c17, [],
               proj_name="C17: complete event stream, task-side log, EventTracker contents", exhaustive=True),
     "C18": mk("C18", st(fail=4, buf=2, td=1, bu=1), 3000, 30000,
